@@ -886,6 +886,9 @@ pub struct Stats {
     pub loops: u64,
     pub converged_early: bool,
     pub ambiguous_end: bool,
+    /// the replayed random stream does not explain the observed proposals (the implementation consumes the generator
+    /// differently): no monitor conclusion was drawn from it
+    pub stream_desync: bool,
 }
 
 pub fn monitor(run: &Run) -> (Vec<Finding>, Stats) {
@@ -966,9 +969,19 @@ pub fn monitor(run: &Run) -> (Vec<Finding>, Stats) {
     if hamming(&c0.vec, &run.init) != 0 {
         add("C06", "the first score() call does not see the input state".into());
     }
-    let mut cands: Vec<Cand> = vec![Cand { cur: c0.vec.clone(), score: s0, hist: None }];
-    let mut truncated = false;
-    let mut inconclusive = false;
+    // The replayed random stream (which handle was drawn, which threshold) is used to tell apart histories the score()
+    // calls alone leave open - as long as it explains the observations.  A proposal that changes a parameter other than
+    // the drawn handle's from EVERY consistent held state shows that the implementation consumes the generator
+    // differently from the replay (which the properties do not forbid; the correspondence run reports it): the
+    // inference is then redone from the score() calls alone and nothing below is concluded from the replayed draws.
+    let mut use_stream = true;
+    let mut cands: Vec<Cand>;
+    let mut truncated;
+    let mut inconclusive;
+    'infer: loop {
+    cands = vec![Cand { cur: c0.vec.clone(), score: s0, hist: None }];
+    truncated = false;
+    inconclusive = false;
     for k in 1..=steps_done {
         let call = &run.calls[k as usize];
         if call.score.is_none() {
@@ -982,6 +995,9 @@ pub fn monitor(run: &Run) -> (Vec<Finding>, Stats) {
             .and_then(|d| run.handles.get(d.0))
             .map(|h| h.0);
         for pass in 0..2 {
+            if pass == 0 && !use_stream {
+                continue;
+            }
             for c in cands.iter() {
                 let hd = hamming(&call.vec, &c.cur);
                 if hd > 1 {
@@ -1009,6 +1025,10 @@ pub fn monitor(run: &Run) -> (Vec<Finding>, Stats) {
                 });
             }
             if !next.is_empty() {
+                if pass == 1 && use_stream {
+                    use_stream = false;
+                    continue 'infer;
+                }
                 break;
             }
         }
@@ -1044,6 +1064,9 @@ pub fn monitor(run: &Run) -> (Vec<Finding>, Stats) {
         }
         cands = ded;
     }
+    break;
+    }
+    stats.stream_desync = !use_stream;
     // the end: the returned state, and the final assertion's call, must be the held state
     let mut finals: Vec<Cand> = cands
         .iter()
@@ -1104,7 +1127,25 @@ pub fn monitor(run: &Run) -> (Vec<Finding>, Stats) {
                     let (_, lo, hi) = run.handles[h];
                     let _ = (lo, hi);
                 }
-                if !same(*a, *b) {
+                if !same(*a, *b) && !use_stream {
+                    // the handle is not known: the range of ANY handle on the changed cell may be the one in force
+                    let ok_for = |&(_, lo, hi): &(usize, f64, f64)| {
+                        let bound = s.max_step * (hi - lo) / 2.;
+                        let step_ok = !(lo <= hi && *b >= lo && *b <= hi) || (a - b).abs() <= bound * (1. + 1e-9) + 1e-300 + 4. * f64::EPSILON * a.abs().max(b.abs());
+                        let range_ok = !(lo <= hi) || !(a.is_nan() || *a < lo || *a > hi);
+                        (step_ok, range_ok)
+                    };
+                    let hs: Vec<(bool, bool)> = cell_handles[i].iter().map(|&h| ok_for(&run.handles[h])).collect();
+                    if !hs.is_empty() && hs.iter().all(|x| !x.0) {
+                        v.push(Finding { property: "C19", what: format!("proposal {} (loop {}) moves parameter {} by {:e}, more than max_step_size*range/2 for every handle on it", k, lp + 1, i, (a - b).abs()) });
+                    }
+                    if !hs.is_empty() && hs.iter().all(|x| !x.1) {
+                        v.push(Finding { property: "C08", what: format!("proposal {} sets parameter {} to {:?} outside the range of every handle on it", k, i, a) });
+                    }
+                    if hs.is_empty() {
+                        v.push(Finding { property: "C06,C08", what: format!("proposal {} changed parameter {}, which no handle points to", k, i) });
+                    }
+                } else if !same(*a, *b) {
                     let hidx = run.draws[(k - 1) as usize].0;
                     let (hc, lo, hi) = run.handles[hidx.min(run.handles.len() - 1)];
                     if hc != i {
@@ -1171,7 +1212,7 @@ pub fn monitor(run: &Run) -> (Vec<Finding>, Stats) {
                             v.push(Finding { property: "C07", what: format!("proposal {} is better ({:?} > {:?}) but was rejected", k, new, sc) });
                         }
                     } else if new == sc {
-                        if !accepted && kt >= 0. && thr < 1. {
+                        if !accepted && kt >= 0. && (thr < 1. || !use_stream) {
                             v.push(Finding { property: "C07", what: format!("proposal {} has an equal score but was rejected", k) });
                         }
                     } else if kt == 0. && kt.is_sign_positive() {
@@ -1184,7 +1225,7 @@ pub fn monitor(run: &Run) -> (Vec<Finding>, Stats) {
                                 what: format!("proposal {} (loop {}) is worse ({:?} < {:?}) and was accepted at zero temperature", k, lp + 1, new, sc),
                             });
                         }
-                    } else if kt > 0. {
+                    } else if kt > 0. && use_stream {
                         let p = f64::exp((new - sc) / kt);
                         let band = 1e-9;
                         if (thr - p).abs() <= 1e-4 * p {
